@@ -1,6 +1,6 @@
 (* C13 -- index files live exactly as long as they are needed.
    Statements over EVERY action sequence of the model in theories/Indexes.v (API calls and
-   job steps in any order, any captures, either View.fetch variant, ANY merge function):
+   job steps in any order, any captures, readable or not, either View.fetch variant, ANY merge function):
    the theorems do not depend on what a merge writes, only on the lock/release discipline. *)
 From Coq Require Import List NArith Bool.
 Require Import Pk.Indexes Pk.IndexesProofs.
@@ -9,37 +9,38 @@ Open Scope N_scope.
 
 Section C13.
 Variable capdb : N -> capture.               (* contents of the capture files *)
+Variable bad : N -> bool.                    (* which capture files cannot be read *)
 Variable refetch_empty : bool.               (* which View.fetch the code has *)
 Variable merge : list file -> list entry.    (* what index.Merge writes *)
 
-Let run (acts : list action) : state := fold_left (step capdb refetch_empty merge) acts init.
+Let run (acts : list action) : state := fold_left (step capdb bad refetch_empty merge) acts init.
 
 (* usedIndexes[u] = (1 if u is in the service list) + number of views and jobs holding u *)
 Theorem C13_use_count_is_number_of_holders : forall acts u,
   cnt (used (run acts)) u =
     occ u (indexes (run acts)) + occ_views u (views (run acts))
     + occ u (ij_files (ijob (run acts))) + occ u (mj_files (mjob (run acts))) + occ u (tj_files (tjob (run acts))).
-Proof. intros. exact (inv13_count _ u (run_inv13 capdb refetch_empty merge acts)). Qed.
+Proof. intros. exact (inv13_count _ u (run_inv13 capdb bad refetch_empty merge acts)). Qed.
 
 (* ... and a file occurs at most once in the service list, so the first summand is 0 or 1 *)
 Theorem C13_service_list_without_duplicates : forall acts,
   NoDup (map f_uid (indexes (run acts))).
-Proof. intros. exact (uniq_nodup _ (run_uniq capdb refetch_empty merge acts)). Qed.
+Proof. intros. exact (uniq_nodup _ (run_uniq capdb bad refetch_empty merge acts)). Qed.
 
 (* no holder ever references a closed-and-removed file *)
 Theorem C13_held_files_exist : forall acts f,
   In f (indexes (run acts)) \/ held_by_view (run acts) f \/ held_by_job (run acts) f ->
   In (f_uid f) (disk (run acts)).
-Proof. intros acts f. exact (inv13_holder_on_disk _ f (run_inv13 capdb refetch_empty merge acts)). Qed.
+Proof. intros acts f. exact (inv13_holder_on_disk _ f (run_inv13 capdb bad refetch_empty merge acts)). Qed.
 
 (* a file is in the directory exactly while its count is non-zero or its writer has not completed *)
 Theorem C13_file_exists_iff_in_use : forall acts u,
   In u (disk (run acts)) <-> 0 < cnt (used (run acts)) u \/ being_written (run acts) u.
-Proof. intros acts u. exact (inv13_disk_iff _ u (run_inv13 capdb refetch_empty merge acts)). Qed.
+Proof. intros acts u. exact (inv13_disk_iff _ u (run_inv13 capdb bad refetch_empty merge acts)). Qed.
 
 Theorem C13_file_being_written_is_not_counted : forall acts u,
   being_written (run acts) u -> cnt (used (run acts)) u = 0.
-Proof. intros acts u. exact (inv13_written_unused _ u (run_inv13 capdb refetch_empty merge acts)). Qed.
+Proof. intros acts u. exact (inv13_written_unused _ u (run_inv13 capdb bad refetch_empty merge acts)). Qed.
 
 (* at quiescence the directory is exactly the service list and every count is 1 *)
 Theorem C13_quiescent_directory_is_service_list : forall acts u,
@@ -48,7 +49,7 @@ Theorem C13_quiescent_directory_is_service_list : forall acts u,
   cnt (used (run acts)) u = (if existsb (N.eqb u) (map f_uid (indexes (run acts))) then 1 else 0).
 Proof.
   intros acts u.
-  exact (inv13_quiescent _ u (run_inv13 capdb refetch_empty merge acts) (run_uniq capdb refetch_empty merge acts)).
+  exact (inv13_quiescent _ u (run_inv13 capdb bad refetch_empty merge acts) (run_uniq capdb bad refetch_empty merge acts)).
 Qed.
 
 End C13.
@@ -67,11 +68,22 @@ Definition ex_history : list action :=
    AStart KMerge; AComplete KMerge].
 
 Example ex_merge_under_holders :
-  let st := fold_left (step_impl ex_capdb) ex_history init in
+  let st := fold_left (step_impl ex_capdb (fun _ => false)) ex_history init in
   map f_uid (indexes st) = [3] /\ used st = [(0, 2); (1, 2); (2, 1); (3, 1)] /\ disk st = [3; 2; 1; 0].
 Proof. vm_compute. repeat split. Qed.
 
 Example ex_released_then_removed :
-  let st := fold_left (step_impl ex_capdb) (ex_history ++ [ARelease 0; AStart KImport; AComplete KImport]) init in
+  let st := fold_left (step_impl ex_capdb (fun _ => false)) (ex_history ++ [ARelease 0; AStart KImport; AComplete KImport]) init in
   map f_uid (indexes st) = [3; 4] /\ disk st = [4; 3] /\ quiescent st.
+Proof. vm_compute. repeat split. Qed.
+
+(* Non-vacuity of the error path: capture 1 of the batch [0;1;2] cannot be read. The first job accounts for
+   [0] only, the second for the unreadable file alone (nothing created, snapshot released), the third for [2]. *)
+Example ex_unreadable_capture :
+  let bad := fun k => k =? 1 in
+  let capdb := fun k : N => match k with 0 => [(0, 3)] | 2 => [(0, 1); (1, 1)] | _ => [] end in
+  let st := fold_left (step_impl capdb bad)
+              [AImport [0; 1; 2]; AView 0; AStart KImport; AComplete KImport; AStart KImport; AComplete KImport;
+               AStart KImport; AComplete KImport; ARelease 0; AStart KMerge; AComplete KMerge] init in
+  processed st = [0; 1; 2] /\ map f_uid (indexes st) = [2] /\ used st = [(2, 1)] /\ disk st = [2] /\ quiescent st.
 Proof. vm_compute. repeat split. Qed.
